@@ -125,3 +125,200 @@ Proof.
   - destruct (collect H srv cfg ri rc (firstn n q) i) as [[[[ri2 rc2] sts] lg]| |]; cbn [obind] in *; try discriminate.
     injection HL as ->. reflexivity.
 Qed.
+
+(* ------------------------------------------------------------------ responder.rs *)
+Require Import RV.Proofs.CodeClient RV.Proofs.CodeKeys.
+
+Lemma gen_responder_add_classic_model : forall H r nonce src,
+  omap (fun '(t, rq) => mkresp (r_version r) (r_online_seed r) (r_cert_bytes r) rq t)
+       (gen_add_classic_request H (r_merkle r) (r_requests r) nonce src)
+  = lift (responder_add H r nonce nonce src).
+Proof.
+  intros. unfold gen_add_classic_request, responder_add.
+  destruct (push_leaf H (r_merkle r) nonce) as [t| |]; reflexivity.
+Qed.
+
+Lemma gen_responder_add_ietf_model : forall H r data nonce src,
+  omap (fun '(t, rq) => mkresp (r_version r) (r_online_seed r) (r_cert_bytes r) rq t)
+       (gen_add_ietf_request H (r_merkle r) (r_requests r) data nonce src)
+  = lift (responder_add H r data nonce src).
+Proof.
+  intros. unfold gen_add_ietf_request, responder_add.
+  destruct (push_leaf H (r_merkle r) data) as [t| |]; reflexivity.
+Qed.
+
+Lemma gen_responder_reset_model : forall r,
+  omap (fun '(t, rq) => mkresp (r_version r) (r_online_seed r) (r_cert_bytes r) rq t)
+       (gen_responder_reset (r_merkle r) (r_requests r))
+  = Ok (responder_reset r).
+Proof. reflexivity. Qed.
+
+(* ---- send_responses ---- *)
+
+Lemma ks_grease : forall g (r : msg),
+  (let '(c, g') := grease_should g in
+   if c then obind (grease_apply g' r) (fun m => Ok (m, g')) else Ok (r, g'))
+  = (let '(c, cs) := match g_coins g with [] => (NoFault, []) | c :: cs => (c, cs) end in
+     obind (grease (g_fault g) c r) (fun m =>
+       Ok (m, if g_fault g =? 0 then g else mkg (g_fault g) c cs))).
+Proof.
+  intros g r. unfold grease_should, grease.
+  destruct (g_fault g =? 0) eqn:Ef.
+  - destruct (g_coins g) as [|c cs]; reflexivity.
+  - destruct (g_coins g) as [|c cs]; [reflexivity|].
+    destruct c; cbn [grease_apply g_cur]; try reflexivity.
+Qed.
+
+Lemma ks_as_u32_idem : forall n, as_u32 (as_u32 n) = as_u32 n.
+Proof. intros. unfold as_u32, two32. rewrite N.mod_mod by discriminate. reflexivity. Qed.
+
+Lemma ks_make_response : forall srep cert paths i nonce,
+  ok_opt (gen_make_response tt srep cert paths (as_u32 i) nonce)
+  = ok_opt (make_response srep cert paths i nonce).
+Proof.
+  intros. rewrite gen_make_response_model. unfold make_response. rewrite ks_as_u32_idem. reflexivity.
+Qed.
+
+Section Respond.
+  Variable H : bytes -> bytes.
+  Variable cfg : config.
+  Variable v : version.
+  Variable srep : msg.
+  Variable cert : bytes.
+  Variable t : tree.
+
+  Definition proj_g (x : gstate * list emission * list sev) : list coin * list emission * list sev :=
+    let '(g, s, st) := x in (g_coins g, s, st).
+
+  Definition nonces_ok (reqs : list (bytes * addr)) : Prop :=
+    Forall (fun na : bytes * addr => (4 <= length (fst na))%nat) reqs.
+
+  Lemma ks_respond_loop : forall (F : _ -> N * (bytes * addr) -> _),
+    (forall s x, F s x =
+      (let '(g0, sock0, st0) := s in
+       let '(idx, (nonce, src)) := x in
+       obind (lift (get_paths t (N.to_nat idx))) (fun paths =>
+       obind (obind (gen_make_response tt srep cert paths (as_u32 idx) nonce) (fun r =>
+              let '(c, g1) := grease_should g0 in
+              if c then obind (grease_apply g1 r) (fun m => Ok (m, g1)) else Ok (r, g1)))
+             (fun '(resp_msg, g1) =>
+       obind (match v with
+              | Google => obind (unwrap_p site_gen (encode resp_msg)) (fun u => Ok u)
+              | RfcDraft13 => obind (unwrap_p site_gen (encode_framed resp_msg)) (fun u => Ok u)
+              end) (fun resp_bytes =>
+       obind (let '(sc, sock1) := sock_send (send_fails cfg) sock0 resp_bytes src in
+              match sc with
+              | Ok n => Ok (sock1, n, true)
+              | Err _ => Ok (sock1, 0, false)
+              | Panic sp => Panic sp
+              end) (fun '(sock1, bytes_sent, okf) =>
+       obind (if okf
+              then obind (match v with
+                          | Google => Ok (st0 ++ [SClassicResponse src bytes_sent])
+                          | RfcDraft13 => Ok (st0 ++ [SRfcResponse src bytes_sent])
+                          end) (fun st1 => Ok st1)
+              else Ok (st0 ++ [SFailedSend src])) (fun st1 =>
+       Ok (g1, sock1, st1)))))))) ->
+    forall reqs idx g sock st,
+    nonces_ok reqs -> g_fault g = fault_pct cfg ->
+    ok_opt (omap proj_g (fold_res F (combine (map N.of_nat (seq idx (length reqs))) reqs) (g, sock, st)))
+    = obo (ok_opt (respond_each cfg v srep cert t reqs idx (g_coins g))) (fun bo =>
+        Some (bo_coins bo, sock ++ bo_sent bo, st ++ bo_stats bo)).
+  Proof.
+    intros F HF. induction reqs as [|[nonce src] reqs IH]; intros idx g sock st Hn Hg.
+    - cbn. rewrite !app_nil_r. reflexivity.
+    - cbn [length seq map combine fold_res respond_each]. rewrite HF.
+      inversion Hn as [|x l Hn0 Hn1]; subst x l. cbn [fst] in Hn0.
+      rewrite Nat2N.id.
+      destruct (lift (get_paths t idx)) as [paths| |]; cbn [obind omap ok_opt obo]; try reflexivity.
+      pose proof (ks_make_response srep cert paths (N.of_nat idx) nonce) as Hmr.
+      destruct (gen_make_response tt srep cert paths (as_u32 (N.of_nat idx)) nonce) as [r| |];
+        destruct (make_response srep cert paths (N.of_nat idx) nonce) as [r'| |];
+        cbn [ok_opt] in Hmr; try discriminate Hmr; cbn [obind omap ok_opt obo]; try reflexivity.
+      injection Hmr as <-.
+      rewrite ks_grease. rewrite Hg.
+      set (pc := match g_coins g with [] => (NoFault, []) | c :: cs => (c, cs) end).
+      destruct pc as [c cs] eqn:Epc.
+      destruct (grease (fault_pct cfg) c r) as [resp_msg| |]; cbn [obind omap ok_opt obo]; try reflexivity.
+      set (g1 := if fault_pct cfg =? 0 then g else mkg (fault_pct cfg) c cs).
+      assert (Hg1 : g_fault g1 = fault_pct cfg) by (subst g1; destruct (fault_pct cfg =? 0); [exact Hg|reflexivity]).
+      assert (Hc1 : g_coins g1 = if fault_pct cfg =? 0 then g_coins g else cs)
+        by (subst g1; destruct (fault_pct cfg =? 0); reflexivity).
+      assert (Hslice : slice (E:=error) site_log_nonce nonce 0 4 = Ok (firstn 4 nonce)).
+      { unfold slice. replace ((4 <? 0)%nat || (length nonce <? 4)%nat) with false by lia. reflexivity. }
+      rewrite Hslice. clear Hslice.
+      set (enc := match v with Google => encode resp_msg | RfcDraft13 => encode_framed resp_msg end).
+      assert (Henc : (match v with
+                      | Google => obind (unwrap_p site_gen (encode resp_msg)) (fun u => Ok u)
+                      | RfcDraft13 => obind (unwrap_p site_gen (encode_framed resp_msg)) (fun u => Ok u)
+                      end) = unwrap_p site_gen enc).
+      { subst enc. destruct v; [destruct (encode resp_msg)|destruct (encode_framed resp_msg)]; reflexivity. }
+      rewrite Henc. clear Henc.
+      destruct enc as [resp_bytes| |]; cbn [unwrap unwrap_p obind omap ok_opt obo]; try reflexivity.
+      unfold sock_send.
+      destruct (send_fails cfg src) eqn:Esf; cbn [obind].
+      + (* the send is refused *)
+        fold (proj_g). rewrite (IH (S idx) g1 sock (st ++ [SFailedSend src]) Hn1 Hg1). rewrite Hc1.
+        destruct (lvl_debug <=? log_level cfg)%nat; cbn [obind];
+          destruct (respond_each cfg v srep cert t reqs (S idx) _) as [bo| |]; cbn [obind ok_opt obo];
+          try reflexivity; cbn [bo_coins bo_sent bo_stats app]; rewrite <- app_assoc; reflexivity.
+      + destruct v; cbn [obind].
+        * rewrite (IH (S idx) g1 _ (st ++ [SClassicResponse src (lenN resp_bytes)]) Hn1 Hg1). rewrite Hc1.
+          destruct (lvl_debug <=? log_level cfg)%nat; cbn [obind];
+            destruct (respond_each cfg Google srep cert t reqs (S idx) _) as [bo| |]; cbn [obind ok_opt obo];
+            try reflexivity; cbn [bo_coins bo_sent bo_stats app]; rewrite <- !app_assoc; reflexivity.
+        * rewrite (IH (S idx) g1 _ (st ++ [SRfcResponse src (lenN resp_bytes)]) Hn1 Hg1). rewrite Hc1.
+          destruct (lvl_debug <=? log_level cfg)%nat; cbn [obind];
+            destruct (respond_each cfg RfcDraft13 srep cert t reqs (S idx) _) as [bo| |]; cbn [obind ok_opt obo];
+            try reflexivity; cbn [bo_coins bo_sent bo_stats app]; rewrite <- !app_assoc; reflexivity.
+  Qed.
+End Respond.
+
+(* Responder::send_responses as translated from src/responder.rs: same Merkle tree afterwards, the
+   same datagrams handed to the socket in the same order, the same statistics events, the same PRNG
+   decisions consumed as the model's send_responses — or both fail. (The model additionally lists
+   the debug log records, which the translation skips.) *)
+Theorem gen_send_responses_model : forall H ed_sign cfg now r g sock st,
+  nonces_ok (r_requests r) -> g_fault g = fault_pct cfg ->
+  ok_opt (omap (fun '(t', g', s', st') => (t', g_coins g', s', st'))
+     (gen_send_responses H ed_sign now (send_fails cfg) (r_version r) (r_online_seed r) (r_cert_bytes r)
+        (r_requests r) (r_merkle r) g sock st))
+  = obo (ok_opt (send_responses H ed_sign cfg r now (g_coins g))) (fun '(r', bo) =>
+      Some (r_merkle r', bo_coins bo, sock ++ bo_sent bo, st ++ bo_stats bo)).
+Proof.
+  intros H ed_sign cfg now r g sock st Hn Hg. unfold gen_send_responses, send_responses.
+  destruct (r_requests r) as [|rq0 rqs] eqn:Erq.
+  - cbn. rewrite !app_nil_r. reflexivity.
+  - rewrite <- Erq in *. cbv iota.
+    destruct (lift (compute_root H (r_merkle r))) as [[t' root]| |]; cbn [obind omap ok_opt obo]; try reflexivity.
+    pose proof (gen_make_srep_model ed_sign (r_online_seed r) (r_version r) now root) as Hs.
+    destruct (gen_make_srep ed_sign (r_online_seed r) (r_version r) now root) as [srep| |];
+      destruct (make_srep ed_sign (r_version r) (r_online_seed r) now root) as [srep'| |];
+      cbn [ok_opt] in Hs; try discriminate Hs; cbn [obind omap ok_opt obo]; try reflexivity.
+    injection Hs as <-. cbv zeta.
+    match goal with |- ok_opt (omap _ (obind (fold_res ?F ?l ?s) _)) = _ =>
+      pose proof (ks_respond_loop H cfg (r_version r) srep (r_cert_bytes r) t' F) as HL
+    end.
+    specialize (HL ltac:(intros [[g0 sock0] st0] [idx [nonce src]]; reflexivity)).
+    specialize (HL (r_requests r) 0%nat g sock st Hn Hg).
+    unfold enumerate_n.
+    destruct (fold_res _ (combine (map N.of_nat (seq 0 (length (r_requests r)))) (r_requests r)) (g, sock, st))
+      as [[[g' s'] st']| |]; cbn [omap ok_opt proj_g obind] in *;
+      destruct (respond_each cfg (r_version r) srep (r_cert_bytes r) t' (r_requests r) 0 (g_coins g)) as [bo| |];
+      cbn [obind ok_opt obo] in *; try discriminate HL; try reflexivity.
+    injection HL as -> -> ->. reflexivity.
+Qed.
+
+Lemma gen_queueing_model : forall H r data nonce src,
+  omap (fun '(t, rq) => mkresp (r_version r) (r_online_seed r) (r_cert_bytes r) rq t)
+       (gen_add_ietf_request H (r_merkle r) (r_requests r) data nonce src)
+  = lift (responder_add H r data nonce src)
+  /\ omap (fun '(t, rq) => mkresp (r_version r) (r_online_seed r) (r_cert_bytes r) rq t)
+       (gen_add_classic_request H (r_merkle r) (r_requests r) nonce src)
+  = lift (responder_add H r nonce nonce src)
+  /\ omap (fun '(t, rq) => mkresp (r_version r) (r_online_seed r) (r_cert_bytes r) rq t)
+       (gen_responder_reset (r_merkle r) (r_requests r))
+  = Ok (responder_reset r).
+Proof.
+  intros. split; [apply gen_responder_add_ietf_model|split; [apply gen_responder_add_classic_model|apply gen_responder_reset_model]].
+Qed.
